@@ -1110,6 +1110,23 @@ func c13EngineAnalyzer(ctx *Ctx) {
 		ctx.R.Eval(1)
 		dir := filepath.Join(ctx.Scratch, fmt.Sprintf("c13dir_%d", i))
 		dir2 := dir + "_twin"
+		outer := ""
+		if twin && ctx.G(i)%2 == 0 {
+			// the twin lies inside other projects: its parent directories hold a repository and the markers of other project types
+			// (a sub-directory, a nested checkout, a vendored module); the report is a function of the directory's own listing
+			outer = filepath.Join(ctx.Scratch, fmt.Sprintf("c13outer_%d", i))
+			mid := filepath.Join(outer, "workspace")
+			os.MkdirAll(filepath.Join(outer, ".git"), 0o755)
+			os.MkdirAll(mid, 0o755)
+			for _, mk := range []string{"go.mod", "package.json", "Dockerfile", "Makefile", "Cargo.toml", "requirements.txt"} {
+				os.WriteFile(filepath.Join(outer, mk), []byte("{}\n"), 0o644)
+				if r.Intn(2) == 0 {
+					os.WriteFile(filepath.Join(mid, mk), []byte("{}\n"), 0o644)
+				}
+			}
+			dir2 = filepath.Join(mid, "sub")
+			ctx.R.Path("dirs-twin-inside-other-projects", 1)
+		}
 		os.RemoveAll(dir)
 		if err := c13WriteDir(dir, ents, false); err != nil {
 			ctx.R.Inconcl("cannot-create-directory")
@@ -1137,6 +1154,9 @@ func c13EngineAnalyzer(ctx *Ctx) {
 		if twin {
 			os.RemoveAll(dir2)
 		}
+		if outer != "" {
+			os.RemoveAll(outer)
+		}
 		if !ok {
 			continue
 		}
@@ -1163,8 +1183,8 @@ func c13EngineAnalyzer(ctx *Ctx) {
 				map[string]interface{}{"second": c13CtxView(c3)})
 		} else if twin && c4 != nil && !c13SameContext(c1, c4, true) {
 			vio("nondeterministic", "AnalyzeDirectory/same-listing-other-directory",
-				fmt.Sprintf("a directory with the identical listing (files created in reverse order) is reported differently: types %v vs %v", c1.ProjectTypes, c4.ProjectTypes),
-				map[string]interface{}{"second": c13CtxView(c4)})
+				fmt.Sprintf("a directory with the identical listing (files created in reverse order; inside other projects: %v) is reported differently: types %v vs %v", outer != "", c1.ProjectTypes, c4.ProjectTypes),
+				map[string]interface{}{"second": c13CtxView(c4), "twin_directory": dir2})
 		}
 		if twin {
 			ctx.R.Path("dirs-twin", 1)
